@@ -4,3 +4,8 @@ CHECKS["C02"] = (
     "Differential round trip between msmart's V2 codec and an independently written one, in both directions and through LAN.send on the simulated network: every frame length 0..255 (all PKCS#7 pads/block counts) exhaustively, ids and clocks generated. No counterexample among the counted cases; not a proof.",
     "Trusted base shared with the code under test: AES block primitive (checked against FIPS-197 vectors), MD5. Reference codec anchored to captured packets (self-test).",
     "DESIGN.md 3/C02")
+CHECKS["C05"] = (
+    "exploration", "differential round-trip against an independent V3 codec; exhaustive lengths/counters/bit flips + Hypothesis",
+    "Request direction: msmart's encrypted request decoded by an independent V3 implementation (counter, pad, size, type, SHA-256 tag, payload) for every payload length 0..300 and every counter 0..4095; response direction: independently encoded responses decoded by msmart; every single-bit flip of one response per padding residue must be rejected with ProtocolError at the level where the library consumes it; plus LAN.send over an authenticated simulated connection. Search, not proof.",
+    "Trusted base shared with the code under test: AES block primitive, SHA-256. Reference anchored to a captured V3 packet (self-test reproduces it byte for byte).",
+    "DESIGN.md 3/C05")
